@@ -32,6 +32,14 @@ Oracle
       not begin with `>` or `->`; otherwise only "one comment, nothing leaks out of it"),
       CDATA content as character data; a markup-valued attribute parses, after the parser's own
       unescaping, as a fragment with the generated structure again.
+  kept trees (family keep, KEEP_WEIGHTS): in a share of the runs the tree is an object its owner keeps - the tree with every
+    leaf replaced by its value, or the very objects that were just flattened asynchronously, every Deferred fired; both
+    include the tags behind TagLoaders - and changes between flattenings through the public API of Tag: items of the
+    `attributes` dictionary set / added / deleted / popped / cleared in place, update(), setdefault(), a new dictionary
+    assigned, Tag.__call__ with keywords or children, the `children` list appended to / inserted into / assigned / deleted
+    from in place, Tag.clear(), Tag.fillSlots() again for a filled name - or not at all; the description is changed alongside.
+    Every further document is judged by the same two parse-back views against the tree as it is at that moment (no byte
+    comparison with an earlier or a fresh rendering: only the statement's "parses back to the same structure").
 """
 import hashlib
 import re
@@ -55,7 +63,7 @@ TWIN_P = 0.08   # this share of the runs drives two independent instances of the
 BATCH = 250
 COMPONENTS = {"real": ["twisted.web._flatten.flatten/flattenString/_flattenTree/_flattenElement/_fork",
                        "twisted.web._flatten.escapeForContent/attributeEscapingDoneOutside/writeWithAttributeEscaping/escapedCDATA/escapedComment",
-                       "twisted.web._stan.Tag/slot/Comment/CDATA/CharRef (fillSlots, clone)",
+                       "twisted.web._stan.Tag/slot/Comment/CDATA/CharRef (fillSlots, clone, __call__, clear, attributes/children changed in place)",
                        "twisted.web._element.Element/renderer", "twisted.web._template_util.TagLoader/XMLString/_ToStan",
                        "twisted.internet.defer.Deferred/Deferred.fromCoroutine"],
               "stub": ["which leaves are fired before flattening starts and the order in which the others fire (tape)",
@@ -68,7 +76,11 @@ RULE = ("run = one tree (depth <= 5, <= ~45 nodes) with 0..10 asynchronous leave
         "optionally one failing leaf or one unsupported object; element names from a fixed list of ordinary names and, with the knob "
         "wide_p in {0.15,0,0.4} per tag, from a wider universe (script/style/title/textarea/xmp/iframe/noembed/noframes in several "
         "spellings with textual children - or, in a fifth of them, arbitrary children and the XML view only - and HTML structural "
-        "names such as pre, table, select, html, body, DIV, H1), also for tags with a renderer; non-trivial = the flattener suspended at least once AND the tree "
+        "names such as pre, table, select, html, body, DIV, H1), also for tags with a renderer; with weights KEEP_WEIGHTS (a quarter "
+        "of the runs) the tree holds nothing that can be consumed only once and is, after the first document, kept, changed in place "
+        "through Tag's public API (0..3 changes drawn per round: attributes / children / slot values of tags built from Python "
+        "objects, incl. the tags behind a TagLoader and inside fired Deferreds) and flattened again, 1..3 rounds, each document "
+        "parsed back against the tree of that moment; non-trivial = the flattener suspended at least once AND the tree "
         "contains at least one markup-significant character sequence in text, attribute, comment or CDATA content")
 ASSUMPTIONS = [
     "tag and attribute names are valid: ASCII names from fixed lists (ordinary names; with wide_p also the text-only elements of HTML "
@@ -82,6 +94,14 @@ ASSUMPTIONS = [
     "demands that nothing leaks and nothing else is altered); only tokenization is modelled (the tree builder's dropping of a newline "
     "right after <textarea>/<pre> is not); trees that put tags, comments, CDATA sections or character references INTO a text-only "
     "element get the XML view only",
+    "the attribute names of one tag are distinct as names, whatever the key type (a dictionary holding both 'href' and b'href' is not "
+    "an element: no document has two attributes of one name; the flattener writes both); a CharRef in an attribute occurs only in "
+    "the markup-valued reading (the value is the serialised markup, escaped as a whole - like a Tag there), never as 'the character'",
+    "family keep: between two flattenings the owner changes tags built from Python objects (not the tags parsed from XMLString "
+    "source); what is put in is plain (no new outstanding Deferreds); a kept tree holds no generators or coroutine objects (they can be "
+    "consumed once; Tag.clone warns about them) and, when the asynchronous objects are kept, no failed Deferred or unsupported object; "
+    "clause kept-flatten-synchronous (a tree whose Deferreds have all fired is flattened at once) is how the document is obtained, "
+    "not part of the statement",
     "bytes leaves are UTF-8 encodings of strings (the statement is silent on bytes that are not UTF-8)",
     "XML view only for trees whose content is representable in XML 1.0: no characters outside the Char production, no `--` inside a "
     "comment; XML end-of-line and attribute-value whitespace normalisation is applied to both sides",
@@ -112,6 +132,9 @@ LEVEL_NOTE = ("Two dimensions. SCHEDULE (what the simulator owns): which Deferre
 # Probability of the two generator families that reproduced genuine defects of the tree as found (both repaired since):
 P_SLOT_SHADOW = 0.06      # an inner fillSlots() re-uses a slot name of an enclosing one and the name is used after the inner tag
 P_COMMENT_HAZARD = 0.06   # comment data beginning with `>` / `->` or containing `--!>` (ends the comment for an HTML5 tokenizer)
+# family keep (weights): the tree is kept by its owner, changed through Tag's public API and flattened again - "sync": the tree with
+# every Deferred replaced by its value, "async": the very objects that were just flattened asynchronously (every Deferred fired)
+KEEP_WEIGHTS = [("no", 6), ("sync", 1), ("async", 1)]
 
 TAGS = ["div", "span", "p", "a", "b", "em", "ul", "li", "td", "h1", "x-y", "sect_1"]
 # The wider universe of valid element names (knob wide_p): names an HTML tokenizer reads text-only content for (RCDATA: title,
@@ -202,6 +225,7 @@ class Gen:
         self.bad_used = False
         self.nfill = 0
         self.poisoned = set()   # fills whose name was re-used by an inner fill: not referenced any more afterwards (see P_SLOT_SHADOW)
+        self.editable = []      # description nodes of the tags built from Python objects (not template source): what a kept tree's owner can change
 
     # ---- strings
     def string(self, ctx, lo=0, hi=4):
@@ -445,6 +469,8 @@ class Gen:
         kids = (self.children(depth, inner, 1 if textonly else 0, 1 if void else 3)
                 if not (void and sim.draw_bool(0.8, "voidempty")) else [])
         node = ("tag", name, nb, attrs, kids, fills)
+        if not ctx.static:
+            self.editable.append(node)
         if after is not None and ctx.attr is None:
             return ("list", "list", [node, ("slot", after[0], None, after[0])])
         return node
@@ -492,7 +518,10 @@ class Gen:
         elif style == "coro":
             gates = self.gates(0, 2)
         ctx.methods[rname] = {"action": action, "payload": payload, "slot": slotname, "style": style, "gates": gates}
-        return ("rtag", name, False, attrs, kids, rname)
+        node = ("rtag", name, False, attrs, kids, rname)
+        if not ctx.static:
+            self.editable.append(node)
+        return node
 
     def element(self, depth, ctx):
         sim = self.sim
@@ -509,6 +538,20 @@ class Gen:
             template.append(self.rtag(depth + 1, tctx))
         self.flags.add("loader-" + loader)
         return ("element", loader, template, methods, eid)
+
+
+    # ---- content for a change made to a kept tree between two flattenings (family keep)
+    def fresh(self, where, textual=False):
+        """A new node for a tree that is flattened again.  where 'attr': (kind, value) of an attribute; where 'child': a child or
+        slot value (textual: strings/bytes/lists/slots of those only)."""
+        sim = self.sim
+        self.nodes = min(self.nodes, 30) + 1
+        if where == "attr":
+            if sim.draw_bool(self.k["mixed_p"], "attrmixed"):
+                actx = Ctx(attr="mixed", reflat=True)
+                return "mixed", ("list", "list", [self.content(4, actx) for _ in range(sim.draw_int(1, 2, "nmixed"))])
+            return "pure", self.plain(3, Ctx(attr="pure", reflat=True))
+        return self.plain(3, Ctx(attr="pure" if textual else None, reflat=True))
 
 
 def _uses_slot(nodes, name):
@@ -766,6 +809,8 @@ class Builder:
                     render=node[5] if k == "rtag" else None)
             if k == "tag" and node[5]:
                 t.fillSlots(**{sname: self.build(val, methods) for (sname, klass, val) in node[5]})
+            if mode == run.keep_mode:
+                run.made.append((node, t))      # the live objects of a tree that is kept and changed between flattenings
             return t
         if k == "element":
             return self.element(node)
@@ -848,6 +893,8 @@ class Run:
         self.results = []
         self.in_write = 0
         self.reent_p = 0.0
+        self.keep_mode = None   # family keep: the Builder mode whose tree is kept, changed in place and flattened again
+        self.made = []          # (description node, live Tag) of that mode
 
     def coroutine(self, gates, produce):
         run = self
@@ -946,14 +993,21 @@ def _run(sim, state):
         "fault": sim.draw_weighted([("none", 6), ("leaf", 3), ("bad", 1)], "fault"),
         "wide_p": sim.draw_choice([0.15, 0.0, 0.4], "wide_p"),
         "slot_shadow": shadow, "comment_hazard": hazard,
+        # family keep: the tree is an object its owner keeps, changes through the public API of Tag and flattens again
+        "keep": sim.draw_weighted(KEEP_WEIGHTS, "keep"),
     }
     knobs["bad"] = knobs["fault"] == "bad"
+    if knobs["keep"] == "async" and knobs["fault"] != "none":
+        knobs["keep"] = "sync"          # a tree with a failed Deferred or an unsupported object in it has no document
     sim.config = dict(knobs)
     g = Gen(sim, knobs)
-    top = Ctx()
+    # a tree that is flattened more than once holds nothing that can be consumed only once (generators, coroutine objects)
+    top = Ctx(reflat=knobs["keep"] != "no")
     root = ("list", "list", g.children(0, top, 1, 4))
     run = Run(sim, g, root)
     state["run"] = run
+    if knobs["keep"] != "no":
+        run.keep_mode = knobs["keep"]
     run.reent_p = knobs["reent_p"]
     nleaves = len(g.leaves)
     if knobs["fault"] == "leaf" and nleaves:
@@ -967,9 +1021,8 @@ def _run(sim, state):
               "flags", ",".join(sorted(g.flags)))
 
     # runs of the two defect-reproducing families report structural failures under the family's own clause
-    family = "slot-scope" if "slot-shadow" in g.flags else ("html5-comment-end" if "comment-hazard" in g.flags else None)
-
     def structural(clause, kind, detail):
+        family = "slot-scope" if "slot-shadow" in g.flags else ("html5-comment-end" if "comment-hazard" in g.flags else None)
         if family is not None:
             sim.fail(family, clause, detail)
         sim.fail(clause, kind, detail)
@@ -1067,7 +1120,8 @@ def _run(sim, state):
     sim.check("no-output-after-completion", len(run.out()) == before, "after-end", "output grew after the returned Deferred fired")
 
     # ---- synchronous document: every Deferred / coroutine replaced by its value
-    S = sync_flatten(sim, Builder(run, "sync").build(root, None), "sync")
+    kept = Builder(run, "sync").build(root, None)
+    S = sync_flatten(sim, kept, "sync")
     out = run.out()
     if final_status == "done":
         sim.check("async-equals-sync", out == S, "final", lambda: "asynchronous output %r..., synchronous %r..." % _around(out, S, 0))
@@ -1076,47 +1130,210 @@ def _run(sim, state):
                   lambda: "after the failure %r had been written; fault-free document %r" % (out[-60:], S[:len(out)][-60:]))
 
     # ---- structural views of the synchronous document (input-sampling part)
-    try:
-        text = S.decode("utf-8")
-    except UnicodeDecodeError as e:
-        sim.fail("output-is-utf8", "decode", str(e))
     scan = exp.scan
-    if scan["mixed"]:
-        sim.probe("markup_valued_attribute")
-    if not scan["illegal"] and not scan["comment_dashes"]:
-        sim.probe("xml_view")
-        try:
-            got = mv.xml_view(S)
-        except mv.ViewError as e:
-            got = None
-            structural("xml-well-formed", "", "%s; document %r" % (e, S[:300]))
-        r = mv.compare(expected, got, "xml")
-        if r is not None:
-            structural("xml-structure", r[0], "%s; document %r" % (r[1], S[:300]))
-    else:
-        sim.probe("xml_view_not_applicable")
-    if scan["text_element"]:
-        sim.probe("text_only_element_with_significant_text")
-    if scan["text_element_markup"]:
-        sim.probe("text_only_element_with_markup_children")
-    if not scan["cdata"] and not scan["text_element_markup"]:
-        sim.probe("html_view")
-        try:
-            got = mv.html_view(text)
-        except mv.ViewError as e:
-            got = None
-            structural("html-tokenizes", "", "%s; document %r" % (e, S[:300]))
-        r = mv.compare(expected, got, "html")
-        if r is not None:
-            structural("html-structure", r[0], "%s; document %r" % (r[1], S[:300]))
-    else:
-        sim.probe("html_view_not_applicable")
+    views(sim, S, expected, scan, structural, "")
+
+    # ---- family keep: the same objects, changed by their owner, flattened again
+    if run.keep_mode == "sync" or (run.keep_mode == "async" and final_status == "done"):
+        keep_phase(sim, run, g, root, kept if run.keep_mode == "sync" else tree, structural)
 
     for f in g.flags:
         sim.probe("tree_" + f)
     if any(lf["share"] for lf in g.leaves):
         sim.probe("shareable_leaf")
     sim.nontrivial = bool(suspensions and scan["significant"])
+
+
+def views(sim, S, expected, scan, structural, pre):
+    """The two parse-back views of one document against the expected items; `pre` prefixes the probe names."""
+    what = "kept tree, flattened again after its owner's changes: " if pre else ""
+    try:
+        text = S.decode("utf-8")
+    except UnicodeDecodeError as e:
+        sim.fail("output-is-utf8", "decode", str(e))
+    if scan["mixed"]:
+        sim.probe(pre + "markup_valued_attribute")
+    if not scan["illegal"] and not scan["comment_dashes"]:
+        sim.probe(pre + "xml_view")
+        try:
+            got = mv.xml_view(S)
+        except mv.ViewError as e:
+            got = None
+            structural("xml-well-formed", "", "%s%s; document %r" % (what, e, S[:300]))
+        r = mv.compare(expected, got, "xml")
+        if r is not None:
+            structural("xml-structure", r[0], "%s%s; document %r" % (what, r[1], S[:300]))
+    else:
+        sim.probe(pre + "xml_view_not_applicable")
+    if scan["text_element"]:
+        sim.probe(pre + "text_only_element_with_significant_text")
+    if scan["text_element_markup"]:
+        sim.probe(pre + "text_only_element_with_markup_children")
+    if not scan["cdata"] and not scan["text_element_markup"]:
+        sim.probe(pre + "html_view")
+        try:
+            got = mv.html_view(text)
+        except mv.ViewError as e:
+            got = None
+            structural("html-tokenizes", "", "%s%s; document %r" % (what, e, S[:300]))
+        r = mv.compare(expected, got, "html")
+        if r is not None:
+            structural("html-structure", r[0], "%s%s; document %r" % (what, r[1], S[:300]))
+    else:
+        sim.probe(pre + "html_view_not_applicable")
+
+
+# =========================================================================== family keep
+
+def kept_flatten(sim, obj, what):
+    """Flatten a kept tree again: nothing in it is outstanding (every Deferred of it has fired), so the document is there at once."""
+    res = []
+    with sim.guard("kept-flatten-raised", what):
+        flattenString(None, obj).addBoth(res.append)
+    sim.check("kept-flatten-synchronous", len(res) == 1, what,
+              "flattening a tree in which every Deferred has fired did not finish synchronously")
+    r = res[0]
+    if isinstance(r, Failure):
+        sim.fail("kept-flatten-failed", what, "flattening the kept tree again failed: %s" % _res([r]))
+    return r
+
+
+def keep_phase(sim, run, g, root, kept, structural):
+    """The tree object that was just flattened is kept by its owner (as a page object, or as the tags behind a TagLoader), changed
+    through the public API of Tag - the `attributes` dictionary and the `children` list in place, Tag.__call__, Tag.clear(),
+    Tag.fillSlots(), a new dictionary assigned to `attributes` - and flattened again.  Every document is judged by the same
+    parse-back views against the tree as it is at that moment (the description is changed alongside the objects)."""
+    g.k = dict(g.k, max_leaves=0)           # what the owner puts in is there: no new outstanding leaves
+    builder = Builder(run, run.keep_mode)
+    sim.event("keep", run.keep_mode, len(g.editable))
+    for rnd in range(sim.draw_weighted([(1, 5), (2, 3), (3, 1)], "keep_rounds")):
+        nedits = sim.draw_weighted([(0, 1), (1, 5), (2, 3), (3, 1)], "nedits") if g.editable else 0
+        for _ in range(nedits):
+            node = g.editable[sim.draw_int(0, len(g.editable) - 1, "edit_node")]
+            lives = [t for (n, t) in run.made if n is node]
+            one_edit(sim, g, builder, node, lives)
+        if not nedits:
+            sim.probe("kept_flattened_again_unchanged")
+        doc = kept_flatten(sim, kept, "round")
+        sim.event("reflatten", rnd, nedits, len(doc), hashlib.sha256(doc).hexdigest()[:12])
+        exp = Expect(g)
+        expected = mv.merge(exp.items(root, {}, None))
+        sim.probe("kept_flattened_again")
+        views(sim, doc, expected, exp.scan, structural, "kept_")
+
+
+def one_edit(sim, g, builder, node, lives):
+    attrs, kids = node[3], node[4]
+    named = node[1] != ""                                   # a transparent tag has no attributes to speak of
+    textual = mv.ascii_lower(node[1]) in mv.HTML_TEXT_ELEMENTS
+    free = [a for a in ATTRS if a not in [x[0] for x in attrs]]
+    op = sim.draw_weighted([("attr-set", 5 if attrs and named else 0),
+                            ("attr-add", 3 if named and free and len(attrs) < 4 else 0),
+                            ("attr-del", 2 if attrs else 0),
+                            ("attr-clear", 1 if attrs else 0),
+                            ("child-add", 2 if node[1] not in VOID and len(kids) < 5 else 0),
+                            ("child-set", 1 if kids else 0),
+                            ("child-del", 1 if kids else 0),
+                            ("children-clear", 1 if kids else 0),
+                            ("refill", 2 if node[0] == "tag" and node[5] else 0),
+                            ("nothing", 1)], "edit")
+
+    def key(name, nb):
+        return name.encode("ascii") if nb else name
+
+    if op in ("attr-set", "attr-add"):
+        if op == "attr-set":
+            i = sim.draw_int(0, len(attrs) - 1, "edit_attr")
+            name, nb = attrs[i][0], attrs[i][1]
+        else:
+            name, nb = sim.draw_choice(free, "edit_attrname"), sim.draw_bool(0.2, "attrbytes")
+        kind, val = g.fresh("attr")
+        how = sim.draw_choice(["item", "call", "update", "dict"] + (["setdefault"] if op == "attr-add" else []), "edit_how")
+        if nb and how == "call":
+            how = "item"                                    # keyword arguments are str
+        if op == "attr-set":
+            attrs[i] = (name, nb, kind, val)
+        else:
+            attrs.append((name, nb, kind, val))
+        for t in lives:
+            v = builder.build(val, None)
+            if how == "item":
+                t.attributes[key(name, nb)] = v
+            elif how == "call":
+                t(**{name: v})
+            elif how == "update":
+                t.attributes.update({key(name, nb): v})
+            elif how == "setdefault":
+                t.attributes.setdefault(key(name, nb), v)
+            else:
+                d = dict(t.attributes)
+                d[key(name, nb)] = v
+                t.attributes = d
+        sim.probe("edit_attribute_replaced_dictionary" if how == "dict" else
+                  ("edit_attribute_by_call" if how == "call" else "edit_attribute_in_place"))
+    elif op == "attr-del":
+        i = sim.draw_int(0, len(attrs) - 1, "edit_attr")
+        name, nb = attrs[i][0], attrs[i][1]
+        how = sim.draw_choice(["del", "pop", "dict"], "edit_how")
+        del attrs[i]
+        for t in lives:
+            if how == "del":
+                del t.attributes[key(name, nb)]
+            elif how == "pop":
+                t.attributes.pop(key(name, nb))
+            else:
+                t.attributes = {k: v for k, v in t.attributes.items() if k != key(name, nb)}
+        sim.probe("edit_attribute_replaced_dictionary" if how == "dict" else "edit_attribute_removed_in_place")
+    elif op == "attr-clear":
+        how = sim.draw_choice(["clear", "dict"], "edit_how")
+        del attrs[:]
+        for t in lives:
+            if how == "clear":
+                t.attributes.clear()
+            else:
+                t.attributes = {}
+        sim.probe("edit_attribute_replaced_dictionary" if how == "dict" else "edit_attribute_removed_in_place")
+    elif op in ("child-add", "child-set"):
+        child = g.fresh("child", textual)
+        if op == "child-add":
+            pos = len(kids) - sim.draw_int(0, len(kids), "edit_pos")        # 0: at the end
+            how = sim.draw_choice(["call", "append"], "edit_how") if pos == len(kids) else "insert"
+            kids.insert(pos, child)
+        else:
+            pos = sim.draw_int(0, len(kids) - 1, "edit_pos")
+            how = "set"
+            kids[pos] = child
+        for t in lives:
+            v = builder.build(child, None)
+            if how == "call":
+                t(v)
+            elif how == "append":
+                t.children.append(v)
+            elif how == "insert":
+                t.children.insert(pos, v)
+            else:
+                t.children[pos] = v
+        sim.probe("edit_children_changed")
+    elif op == "child-del":
+        pos = sim.draw_int(0, len(kids) - 1, "edit_pos")
+        del kids[pos]
+        for t in lives:
+            del t.children[pos]
+        sim.probe("edit_children_changed")
+    elif op == "children-clear":
+        del kids[:]
+        for t in lives:
+            t.clear()
+        sim.probe("edit_children_changed")
+    elif op == "refill":
+        j = sim.draw_int(0, len(node[5]) - 1, "edit_fill")
+        sname, klass, _ = node[5][j]
+        val = g.fresh("child", klass == "textual")
+        node[5][j] = (sname, klass, val)
+        for t in lives:
+            t.fillSlots(**{sname: builder.build(val, None)})
+        sim.probe("edit_slot_filled_again")
+    sim.event("edit", op, len(lives))
 
 
 def _around(a, b, n):
@@ -1187,6 +1404,12 @@ MUTANTS = [
     "_flatten.py Tag branch: children of title/textarea escaped for `<` only (`&` left alone): CAUGHT (xml-structure:text / html-structure:text)",
     "_flatten.py Tag branch: values of attributes named on* written without attribute escaping: CAUGHT (xml-well-formed / attr-markup)",
     "_flatten.py Tag branch: end tag written in lower case: CAUGHT (xml-well-formed, upper/mixed-case names)",
+    # ---- state kept on the tree between flattenings (round 6: family keep)
+    "_flatten.py Tag branch: attribute items snapshotted on the Tag at its first flattening (root.__dict__.setdefault): CAUGHT by the keep "
+    "family (xml-structure:attrs / html-structure:attrs / attr-value); nothing before flattened one object twice with a change in between",
+    "_flatten.py Tag branch: children snapshotted on the Tag at its first flattening: CAUGHT by the keep family (structure:shape / text)",
+    "_stan.py Tag.fillSlots: setdefault instead of update (a second fillSlots for a filled name is ignored): CAUGHT by the keep family "
+    "(xml-structure:text / shape)",
     "_flatten.py _flattenTree: `stack[-1] = await element; continue` instead of pushing the result: SURVIVES - equivalent (the generator of a "
     "Deferred/coroutine node yields exactly once and ends, so replacing it with the result generator changes nothing)",
 ]
